@@ -4,6 +4,8 @@
 #[global_allocator]
 static ALLOC: simcore::alloc::SimAlloc = simcore::alloc::SimAlloc;
 
+#[cfg(feature = "with-examples")]
+mod bundled;
 mod c01;
 mod c03;
 mod c06;
@@ -42,6 +44,8 @@ pub fn exh_index(total: u64) -> u64 {
 fn main() {
     let mut scs = Vec::new();
     scs.extend(c01::scenarios());
+    #[cfg(feature = "with-examples")]
+    scs.extend(bundled::scenarios());
     scs.extend(c03::scenarios());
     scs.extend(c06::scenarios());
     scs.extend(transport::scenarios());
